@@ -23,10 +23,14 @@ var errVerifNoCluster = errors.New("verif: no cluster behind this stub")
 
 type verifC16Client struct{ Client }
 
-func (c *verifC16Client) Partitions(topic string) ([]int32, error)         { return nil, errVerifNoCluster }
-func (c *verifC16Client) WritablePartitions(topic string) ([]int32, error) { return nil, errVerifNoCluster }
-func (c *verifC16Client) RefreshMetadata(topics ...string) error           { return nil }
-func (c *verifC16Client) Leader(topic string, p int32) (*Broker, error)    { return nil, errVerifNoCluster }
+func (c *verifC16Client) Partitions(topic string) ([]int32, error) { return nil, errVerifNoCluster }
+func (c *verifC16Client) WritablePartitions(topic string) ([]int32, error) {
+	return nil, errVerifNoCluster
+}
+func (c *verifC16Client) RefreshMetadata(topics ...string) error { return nil }
+func (c *verifC16Client) Leader(topic string, p int32) (*Broker, error) {
+	return nil, errVerifNoCluster
+}
 
 // VerifNewStub builds the stub. pid < 0 means "no producer id" (non-idempotent producer).
 func VerifNewStub(conf *Config, pid int64, epoch int16, chanCap int) *VerifStub {
